@@ -15,7 +15,7 @@ for patch in patches:
         if r.returncode != 0:
             print('%s: DOES NOT APPLY: %s' % (patch, (r.stdout + r.stderr)[:300]))
             continue
-        demo = os.path.join(os.path.dirname(patch), os.path.basename(patch).replace('patch', 'demo').replace('.diff', '.py'))
+        demo = os.path.abspath(os.path.join(os.path.dirname(patch), os.path.basename(patch).replace('patch', 'demo').replace('.diff', '.py')))
         if os.path.exists(demo):
             env = dict(os.environ, PYTHONPATH=tmp + '/src')
             r1 = subprocess.run(['/venv/bin/python', '-W', 'ignore', demo], env=env, capture_output=True, text=True, cwd=tempfile.gettempdir())
